@@ -15,11 +15,14 @@ import (
 	. "gopkg.in/check.v1"
 	"gopkg.in/tomb.v2"
 
+	"github.com/snapcore/snapd/asserts/assertstest"
 	"github.com/snapcore/snapd/interfaces"
 	"github.com/snapcore/snapd/interfaces/ifacetest"
 	"github.com/snapcore/snapd/overlord/hookstate"
 	"github.com/snapcore/snapd/overlord/ifacestate"
+	"github.com/snapcore/snapd/overlord/snapstate"
 	"github.com/snapcore/snapd/overlord/state"
+	"github.com/snapcore/snapd/snap"
 	"github.com/snapcore/snapd/zzverif/vh"
 )
 
@@ -81,7 +84,7 @@ type c22Conn struct {
 }
 
 type c22Op struct {
-	Kind      string `json:"kind"` // connect | disconnect
+	Kind      string `json:"kind"` // connect | disconnect | autoconnect (setup-profiles + auto-connect of the plug snap)
 	ID        int    `json:"id"`
 	Auto      bool   `json:"auto,omitempty"`
 	ByGadget  bool   `json:"by-gadget,omitempty"`
@@ -140,6 +143,9 @@ func c22CoqOp(o c22Op) string {
 		f = "(FailMain " + vh.CoqN(uint64(o.K)) + ")"
 	case "after":
 		f = "FailAfter"
+	}
+	if o.Kind == "autoconnect" {
+		return "(OAutoConnect, " + f + ")"
 	}
 	if o.Kind == "connect" {
 		return "(OConnect " + vh.CoqN(uint64(o.ID)) + " " + vh.CoqBool(o.Auto) + " " + vh.CoqBool(o.ByGadget) + ", " + f + ")"
@@ -251,6 +257,17 @@ func (w *c22World) runOp(op c22Op) (created, failed bool) {
 				}
 			}
 		}
+	case "autoconnect":
+		// what a refresh of the plug snap does at the interface level: setup-profiles, then auto-connect (which injects
+		// connect tasks with delayed-setup-profiles and a second setup-profiles)
+		snapsup := &snapstate.SnapSetup{SideInfo: &snap.SideInfo{RealName: "consumer", Revision: snap.R(1)}}
+		sp := st.NewTask("setup-profiles", "")
+		sp.Set("snap-setup", snapsup)
+		ac := st.NewTask("auto-connect", "")
+		ac.Set("snap-setup", snapsup)
+		ac.WaitFor(sp)
+		ts = state.NewTaskSet(sp, ac)
+		mainKind = "setup-profiles"
 	case "disconnect":
 		conn, cerr := repo.Connection(ref)
 		switch {
@@ -284,6 +301,9 @@ func (w *c22World) runOp(op c22Op) (created, failed bool) {
 		default:
 			post = append(post, t)
 		}
+	}
+	if op.Kind == "autoconnect" {
+		pre, post = nil, nil // no hook tasks yet: auto-connect injects them later; failures are injected with error-trigger tasks
 	}
 	hookOf := func(t *state.Task) string {
 		var hs hookstate.HookSetup
@@ -330,6 +350,16 @@ func (s *interfaceManagerSuite) c22Exec(c *C, in c22In) vh.Out {
 	s.mockIfaces(&ifacetest.TestInterface{InterfaceName: "test"})
 	s.mockSnap(c, c22ConsumerYaml)
 	s.mockSnap(c, c22ProducerYaml)
+	restoreDecl := assertstest.MockBuiltinBaseDeclaration([]byte(`
+type: base-declaration
+authority-id: canonical
+series: 16
+slots:
+  test:
+    allow-auto-connection:
+      slots-per-plug: *
+`))
+	defer restoreDecl()
 	restore := hookstate.MockRunHook(func(ctx *hookstate.Context, tomb *tomb.Tomb) ([]byte, error) {
 		if w.failHook != "" && ctx.HookName() == w.failHook {
 			return []byte("injected hook failure"), errors.New("injected hook failure")
@@ -401,6 +431,9 @@ func (s *interfaceManagerSuite) c22Exec(c *C, in c22In) vh.Out {
 				}
 			}
 			stp.Viol = op.Kind + "/" + op.Fail + "/" + e
+			if op.Kind == "autoconnect" {
+				stp.Viol = "autoconnect/" + op.Fail
+			}
 			if op.Kind == "disconnect" && op.Forget {
 				stp.Viol = "forget/" + op.Fail + "/" + e
 			}
@@ -452,7 +485,10 @@ func c22RandOp(r *vh.Rand) c22Op {
 	if r.Intn(5) < 2 {
 		op.ID = 0 // the pair with hooks on both sides
 	}
-	if r.Bool() {
+	if r.Chance(1, 5) {
+		op.Kind = "autoconnect"
+		op.ID = 0
+	} else if r.Bool() {
 		op.Kind = "connect"
 		switch r.Intn(5) {
 		case 0, 1:
@@ -513,6 +549,22 @@ func c22Gen(r *vh.Rand, tier string, n int) []c22In {
 					}
 					ins = append(ins, in)
 				}
+			}
+		}
+	}
+	if tier == "thorough" || n >= 60 {
+		for _, e := range entries {
+			for _, f := range fails {
+				in := c22In{Ops: []c22Op{{Kind: "autoconnect", Fail: f.Fail, K: f.K}}}
+				if e != nil {
+					in.Init = []c22Conn{*e}
+					x := *e
+					x.ID = 3
+					if f.K == 1 {
+						in.Init = append(in.Init, x)
+					}
+				}
+				ins = append(ins, in)
 			}
 		}
 	}
